@@ -5,14 +5,14 @@ from props import C01
 
 
 def build_py(run, prop="C04"):
-    from engine.pyvc.harness import toolkit, new_engine, note_engine
+    from engine.pyvc.harness import toolkit, new_engine, note_engine, sect
     from contracts.py.common import install_validate_summaries
     dm = toolkit("data_msg")
     E = new_engine()
-    C01.build_tables(run, prop, dm)
-    C01.build_gen(run, prop, dm, E, install_validate_summaries())
-    C01.build_parse(run, prop, dm, E)
-    C01.build_lemma(run, prop)
+    sect(run, C01.build_tables, run, prop, dm)
+    sect(run, C01.build_gen, run, prop, dm, E, install_validate_summaries())
+    sect(run, C01.build_parse, run, prop, dm, E)
+    sect(run, C01.build_lemma, run, prop)
     note_engine(run, E)
     run.assume("soft bits of a valid Rx message lie in [-127,127]; message fields are int|None")
 
